@@ -203,7 +203,7 @@ def run(m, rep, tier):
     if not minus:
         n5.violation('slist:removal', 'no function of the list decrements the element count although elements can be removed '
                      '(size() keeps counting erased elements)', 'src/slist.c', {})
-    f = m.pfn('cstl_slist_concat')
+    f = m.focus('slist').fn('cstl_slist_concat')       # private splice helpers inlined
     if f is None:
         n5.undecided('cstl_slist_concat', 'not in the model')
     else:
@@ -333,10 +333,16 @@ def run(m, rep, tier):
     n8 = rep.rule('N8', 'push_front / push_back / insert_after pass the anchor after which the link primitive links', floor=3)
     listrules.check_insert_anchors(m, n8, 'slist', '__cstl_slist_insert_after', 'cstl_slist', 'cstl_slist_node',
                                    {'cstl_slist_push_front': 'front', 'cstl_slist_push_back': 'back', 'cstl_slist_insert_after': ('after', '$1')},
-                                   nxt='n', prv='__none__', tail='t')
+                                   nxt='n', prv='__none__', tail='t',
+                                   null_fns={n_ for n_, d_ in decls.items() if any(rv.split()[:1] == ['NULL'] for rv in d_.retvals)})
 
     # ---- N7: swap completeness ------------------------------------------------------------
     from .util import check_swap_complete
     _sw = rep.rule('N7', 'swap exchanges every member of the two lists before re-anchoring', floor=1)
     for _n in ('cstl_slist_swap',):
         check_swap_complete(m, _n, _sw)
+
+    # ---- N11: the NDEBUG build does what the assertion build does ---------------------------------
+    from .util import check_assert_effects
+    _ae = rep.rule('N11', 'every store / effectful call made with assertions enabled is also made by the NDEBUG build (no work inside assert())', floor=1)
+    check_assert_effects(m, _ae, ('slist.c', 'slist.h'))
